@@ -39,6 +39,9 @@ _COL_KINDS = ['str', 'int', 'auto', 'hier2', 'negint', 'mixed', 'IndexDate']
 _HIER_OK = ('label', 'labels', 'bools', 'iloc', 'null')
 
 
+TECHNIQUE = 'runtime monitoring: reference-model oracle (list model of label -> position resolution) over enumerated and sampled key descriptors for loc / iloc / [] / bloc, follow-up lookups on results, grown grow-only axes; Index hook invariant'
+
+
 def _label_key(labels, kind, rng):
     for _ in range(50):
         d = K.gen_label(labels, kind, rng)
